@@ -12,6 +12,9 @@ import TempestVerif.Sc
           weights = np.exp(logw_normed) / np.sum(np.exp(logw_normed))
           return 1.0 / np.sum(weights * weights) / len(weights)
 
+  SOURCE-DERIVED: `Props/C20Source.lean` (`C20_src_ess`, `C20_src_compute_ess`) proves that `ess` / `computeEss` are the functions
+  compiled from the current `tools.py` (translator G16, `Gen/ToolsSrc.lean`).
+
   `np.sum` is modelled as a left fold (numpy sums pairwise: identical over ℝ and over exact dyadics,
   different rounding over doubles — the correspondence uses a tolerance there).
 -/
@@ -41,5 +44,10 @@ def computeEss {α : Type} [ScT α] (logw : List α) : Option α :=
     let e := (x :: xs).map fun l => ScT.exp (Sc.sub l m)
     let wts := normalise e
     some (Sc.div (Sc.div Sc.one (sumSq wts)) (Sc.ofNat (x :: xs).length))
+
+/-- `np.max` (`none` = the `ValueError` on an empty array); referred to by the regenerated `Gen/ToolsSrc.lean` -/
+def amax? : List α → Option α
+  | [] => none
+  | x :: xs => some (maxOf x xs)
 
 end Model.Ess
